@@ -163,6 +163,90 @@ def ordered_blocks(nodes, level_index, force_order=True):
             yield [list(b) for b in blocks]
 
 
+def intermediates(wl: S.WL):
+    outs = {e[1]: e[0] for e in wl.einsums}
+    res = []
+    for e in wl.einsums:
+        for t, _ in e[3]:
+            if t in outs:
+                res.append((t, outs[t], e[0]))
+    return res  # (tensor, producer, consumer)
+
+
+def split_at_backing(tree, tensor):
+    """-> (top outermost nodes, prefix between top and the tensor's first holder
+    (exclusive), backing node, rest)"""
+    outer = tree[0][1]
+    i = 0
+    while i < len(tree) and tree[i][0] == "S" and tree[i][1] == outer:
+        i += 1
+    top = tree[:i]
+    for j, n in enumerate(tree):
+        if n[0] == "S" and n[2] == tensor:
+            if j < i:
+                return top, None, n, tree[i:]  # backed in the outermost level: unfused
+            return top, tree[i:j], n, tree[j + 1:]
+    raise ValueError("tensor has no holder")
+
+
+def fused_prefix_key(prefix, tensor_ranks, max_fused_per_var=1):
+    """Loops above the shared tensor's backing node must iterate its own rank
+    variables (no recomputation) and at most `max_fused_per_var` per variable.
+    Returns the tuple of (var, tile) or None if the prefix is not a legal fused prefix."""
+    loops = [(n[1], n[2]) for n in prefix if n[0] == "T"]
+    per = {}
+    for v, _ in loops:
+        if v not in tensor_ranks:
+            return None
+        per[v] = per.get(v, 0) + 1
+        if per[v] > max_fused_per_var:
+            return None
+    return tuple(loops)
+
+
+def merge_two(t0, t1, tensor):
+    """Merge two single-Einsum trees that agree on the backing node of `tensor` and
+    on the loops above it.  Storage nodes that share a block with the backing node go
+    inside their own branch (shortest lifetime); earlier ones stay above the split."""
+    top0, pre0, b0, rest0 = split_at_backing(t0, tensor)
+    top1, pre1, b1, rest1 = split_at_backing(t1, tensor)
+    if pre0 is None or pre1 is None:
+        if pre0 is None and pre1 is None:
+            return [("SEQ", [list(t0), list(t1)])]
+        return None
+    if b0 != b1:
+        return None
+    l0 = [(n[1], n[2]) for n in pre0 if n[0] == "T"]
+    l1 = [(n[1], n[2]) for n in pre1 if n[0] == "T"]
+    if l0 != l1:
+        return None
+
+    def segments(pre):
+        segs, cur = [], []
+        for n in pre:
+            if n[0] == "T":
+                segs.append(cur)
+                cur = []
+            else:
+                cur.append(n)
+        segs.append(cur)
+        return segs
+
+    s0, s1 = segments(pre0), segments(pre1)
+    top = list(top0) + [n for n in top1 if n not in top0]
+    if not l0:
+        # no shared loops: sequential at the top, every branch keeps its own nodes
+        return [("SEQ", [list(t0), list(t1)])]
+    merged = list(top)
+    for j, lp in enumerate(l0):
+        merged += s0[j] + s1[j]
+        merged.append(("T", lp[0], lp[1]))
+    br0 = [b0] + s0[-1] + list(rest0)
+    br1 = [b1] + s1[-1] + list(rest1)
+    merged.append(("SEQ", [br0, br1]))
+    return merged
+
+
 def single_einsum_trees(arch: S.Arch, wl: S.WL, einsum: str, orders="alpha",
                         force_order=True, holders=None):
     levels = [m.name for m in arch.holders]
